@@ -20,6 +20,14 @@ for m in sorted(rows):
         t.append(f"| {m.replace('.diff','')} | {r['check']} | {res} | {key} | {r['seconds']} |")
 seed = subprocess.run(['python3', '/verif/tools/seedtable.py'], capture_output=True, text=True).stdout
 t += ["", "**Changes written by independent sub-agents** (each got only the text of one property and its own worktree; kept under `seeded/<id>-<n>/` with patch, demonstration and `meta.json` after I confirmed in a scratch worktree that the existing suite passes with the change and that the demonstration fails with it and passes without). `r2-` = second round (agents were told which files/functions were already used and asked for harder changes); `r3-`, `r4-` = third and fourth round (nothing but the property text and a list of areas of n2 worth considering, different per round). The columns 'report it / stay silent' are from the day a change was filed (after the strengthening it prompted, see 0.2/0.7); the last column is the own-property quick check re-run against every change with the harness as committed at the end (`tools/seedsweep.py`).", "", seed]
+t += ["", "**What the four rounds showed.** 160 changes were filed (159 confirmed; C16-1 is kept as rejected because an existing test hangs with it). "
+      "The own-property quick check was silent (or inconclusive) on its first run against 5 of 39 changes of round 1, 11 of 40 of round 2, 7 of 40 of round 3 and 7 of 40 of round 4; "
+      "in rounds 3 and 4 a further 2 and 5 changes were only caught at the first run because the generator had been extended after reading the author's summary and before running the check "
+      "(C10-r3-1, C13-r3-1; C12-r4-1, C12-r4-2, C13-r4-1, C15-r4-1, C16-r4-2). Every miss was answered by extending a generator or adding an oracle (never by special-casing the change), "
+      "the check was re-run on the unchanged tree, and the change was re-run; the extensions are listed per property in 0.7. "
+      "The miss rate did not fall from round to round: each round pointed at behaviour the generators did not yet reach "
+      "(signal deaths seen by n2 itself, logs beyond 8 KiB, CR/tab/0x85/0xA0 bytes in depfiles, paths assembled from variables, `-f` spellings, files read twice, doubled continuations, restat summaries, concurrent spawning, ...). "
+      "A fifth round would very likely find more; that is the honest reading of these numbers."]
 block5 = "\n".join(t)
 # --- 0.6
 parts = subprocess.run(['/verif/target/release/n2check', 'parts'], capture_output=True, text=True).stdout
